@@ -11,7 +11,9 @@ from typing import Any
 
 from vf import ROOT, findings
 
-EVIDENCE = os.path.join(ROOT, 'evidence')
+# Runs against a scratch copy of the repository (mutant self-tests) must not overwrite the real evidence.
+EVIDENCE = os.path.join(ROOT, 'evidence') if os.environ.get('VERIF_REPO', '/repo') == '/repo' else \
+    os.path.join(os.environ.get('TMPDIR', '/tmp'), 'vf-evidence-scratch')
 REPLAYS = os.path.join(EVIDENCE, 'replays')
 
 COMMON_ASSUMPTIONS = [
